@@ -606,9 +606,20 @@ def deep_cases() -> list[tuple[dict, tuple, int]]:
 # The recorded witnesses (known findings), re-observed on every run.
 W30 = ({"t0": [("T", "B"), ("B", "a", False, [("T", "x")], None)],
         "t1": [("T", "L"), ("E", "t0"), ("B", "a", False, [("T", "y")], None)]}, ("direct", "t1"), 30)
-WREC = ({"t0": [("B", "a", False, [("T", "ra"), ("B", "b", False, [("T", "rb")], None)], None)],
-         "t1": [("E", "t0"), ("B", "b", False, [("T", "mb"), ("B", "a", False, [("T", "ma"), ("S",)], None)], None)],
-         "t2": [("E", "t1"), ("B", "a", False, [("T", "la"), ("S",)], None)]}, ("direct", "t2"), 30)
+def _wrec() -> tuple:
+    # t0: a{ra b{rb}}; t1 overrides b with b{mb a{ma super}}; t2..t4 override a with a{l super}:
+    # a -> super x3 -> t1's a -> super -> t0's a -> b -> t1's b -> a -> ...   (several supers per
+    # copy level make CPython's recursion limit come before context_depth_limit = 30)
+    def blk(n: str, body: list) -> tuple:
+        return ("B", n, False, body, None)
+    t = {"t0": [blk("a", [("T", "ra"), blk("b", [("T", "rb")])])],
+         "t1": [("E", "t0"), blk("b", [("T", "mb"), blk("a", [("T", "ma"), ("S",)])])]}
+    for i in range(2, 5):
+        t[f"t{i}"] = [("E", f"t{i - 1}"), blk("a", [("T", "l" + str(i)), ("S",)])]
+    return (t, ("direct", "t4"), 30)
+
+
+WREC = _wrec()
 
 CORPUS: list[tuple[dict, tuple, int]] = [
     W30,
@@ -872,7 +883,7 @@ def main(chk: C.Check, build: C.Build) -> None:
     fam_counts: dict[str, Any] = {}
     #        names, depth, fraction in thorough, fraction in quick
     plan = [(1, 2, 1.0, 0.25), (1, 3, 1.0, 0.25), (1, 4, 1.0, 0.1), (2, 2, 1.0, 0.1),
-            (2, 3, 1.0, 0.016), (3, 2, 0.2, 0.016),
+            (2, 3, 1.0, 0.014), (3, 2, 0.2, 0.014),
             (2, 4, 0.003, 0.0003), (3, 3, 0.0005, 0.00005), (3, 4, 0.0000025, 0.00000025)]
     for k, d, f_th, f_q in plan:
         shapes = fam_shapes(k)
@@ -920,7 +931,7 @@ def main(chk: C.Check, build: C.Build) -> None:
         if r.random() < 0.03 and len(tpls) > 1:
             cases.append((tpls, ("wrap", [(r.random() < 0.5, entry[1])]), limit, c[3] if len(c) > 3 else True))
             fam_wrapped += 1
-    nrand = 600 if not thorough else 8000
+    nrand = 500 if not thorough else 8000
     for _ in range(nrand):
         cases.append(rand_case(r, thorough) + (r.random() < 0.75,))
     # configuration axes: markup characters in literal text / in render data with auto-escape on / off;
